@@ -56,6 +56,8 @@ pub const DECODERS: &[(&str, &str)] = &[
     ("verify_hashbuf_digest", "bytes"),
     ("sign_digest", "bytes"),
     ("recover_from_digest", "bytes"),
+    ("recover_from_digest_inner", "bytes"),
+    ("recover_from_message_inner", "bytes"),
     ("aes_key_iv", "bytes"),
 ];
 
@@ -75,8 +77,41 @@ fn touch<T>(f: impl FnOnce() -> T) -> Value {
 fn decode(req: &Value) -> R {
     let which = st(req, "which")?;
     let kind = DECODERS.iter().find(|(n, _)| *n == which).map(|(_, k)| *k).ok_or_else(|| drv(format!("unknown decoder {}", which)))?;
-    let bytes: Vec<u8> = if kind == "bytes" { hx(req, "hex")? } else { vec![] };
-    let text: &str = if kind == "text" { st(req, "text")? } else { "" };
+    // `run`: the input is built here as pre + unit * n + post (long repeated inputs need not be shipped)
+    let mut built_text = String::new();
+    let mut built_bytes: Vec<u8> = vec![];
+    if let Some(run) = req.get("run") {
+        let n = un(run, "n")? as usize;
+        if kind == "bytes" {
+            built_bytes.extend(hx(run, "pre")?);
+            let u = hx(run, "unit")?;
+            for _ in 0..n {
+                built_bytes.extend_from_slice(&u);
+            }
+            built_bytes.extend(hx(run, "post")?);
+        } else {
+            built_text.push_str(st(run, "pre")?);
+            let u = st(run, "unit")?;
+            for _ in 0..n {
+                built_text.push_str(u);
+            }
+            built_text.push_str(st(run, "post")?);
+        }
+    }
+    let bytes: Vec<u8> = if req.get("run").is_some() {
+        built_bytes
+    } else if kind == "bytes" {
+        hx(req, "hex")?
+    } else {
+        vec![]
+    };
+    let text: &str = if req.get("run").is_some() {
+        &built_text
+    } else if kind == "text" {
+        st(req, "text")?
+    } else {
+        ""
+    };
     let b = &bytes[..];
     // every arm: Result<touch-json, lib error string>
     let r: Result<Value, String> = match which {
@@ -152,6 +187,17 @@ fn decode(req: &Value) -> R {
             let k = one_key();
             let sig = k.sign_message(b"m").map_err(drv)?;
             sig.recover_public_key_from_digest(b).map(|p| touch(|| p.to_bytes().is_ok())).map_err(|e| e.to_string())
+        }
+        "recover_from_digest_inner" => {
+            // the public inner function behind recover_public_key_from_digest, on a signature that carries recovery info
+            let k = one_key();
+            let sig = k.sign_message(b"m").map_err(drv)?;
+            sig.get_public_key_from_digest(b).map(|p| touch(|| p.to_bytes().is_ok())).map_err(|e| e.to_string())
+        }
+        "recover_from_message_inner" => {
+            let k = one_key();
+            let sig = k.sign_message(b"m").map_err(drv)?;
+            sig.get_public_key(b, SigningHash::Sha256).map(|p| touch(|| p.to_bytes().is_ok())).map_err(|e| e.to_string())
         }
         "aes_key_iv" => {
             // input layout: [mode:1][dir:1][klen:1][ivlen:1][key][iv][msg]
